@@ -14,6 +14,8 @@ overrides).  Used by tools/refactor_fuzz.py (all properties) and by the thorough
   T13 second half of a method body extracted into a new private method of the same class
   T14 operands of is / is not exchanged, `x == literal` written literal-first;  T15 if/else pairs of returns (or of assignments to one name) folded into a conditional expression
   T16 a list / dict comprehension that is the whole value of an assignment spelled as a loop;  T17 the inverse
+  T18 %-formatting spelled as an f-string;  T19 isinstance(x, (A, B)) split into a disjunction;  T20 conditional expressions spelled as if statements
+  T21 keyword arguments of same-module function calls passed positionally
 """
 from __future__ import annotations
 
@@ -526,8 +528,162 @@ def t17_loop_to_comp(fn):
     return done
 
 
+import re as _re
+
+_PCT = _re.compile(r'%(?:(%)|([-0 +#]*)(\d*)(?:\.(\d+))?([sfrxX]))')
+
+
+def t18_percent_to_fstring(fn):
+    """'<fmt>' % args  ->  f-string, when every directive is %s / %r / %f / %x (flags, width, precision kept) and the
+    argument count is syntactically known; %s becomes {e!s} (exactly str(e)), %r {e!r}"""
+    done = False
+    for n in own_nodes(fn):
+        if not (isinstance(n, ast.BinOp) and isinstance(n.op, ast.Mod) and isinstance(n.left, ast.Constant)
+                and isinstance(n.left.value, str)):
+            continue
+        fmt = n.left.value
+        if _re.search(r'%(?![-0 +#]*\d*(?:\.\d+)?[sfrxX%])', fmt):
+            continue
+        specs = [m for m in _PCT.finditer(fmt) if not m.group(1)]
+        if isinstance(n.right, ast.Tuple):
+            args = list(n.right.elts)
+        elif isinstance(n.right, (ast.Name, ast.Attribute, ast.Call, ast.Subscript, ast.Constant, ast.BinOp)) and len(specs) == 1:
+            # a single non-tuple operand: only safe when it cannot be a tuple at run time; accept calls / names is
+            # NOT safe in general, so restrict to calls and constants and attribute reads of self
+            if isinstance(n.right, ast.Name):
+                continue
+            args = [n.right]
+        else:
+            continue
+        if len(args) != len(specs) or any(isinstance(a, ast.Starred) for a in args):
+            continue
+        values = []
+        pos = 0
+        k = 0
+        for m in _PCT.finditer(fmt):
+            lit = fmt[pos:m.start()]
+            if m.group(1):
+                lit += '%'
+                if lit:
+                    values.append(ast.Constant(value=lit))
+                pos = m.end()
+                continue
+            if lit:
+                values.append(ast.Constant(value=lit))
+            flags, width, prec, conv = m.group(2), m.group(3), m.group(4), m.group(5)
+            if conv in 'sr':
+                if flags or width or prec:
+                    values = None
+                    break
+                values.append(ast.FormattedValue(value=args[k], conversion=ord(conv), format_spec=None))
+            else:
+                if '-' in flags or ' ' in flags and '+' in flags:
+                    values = None
+                    break
+                spec = ''
+                if '-' in flags:
+                    spec += '<'
+                for f in '+ #0':
+                    if f in flags:
+                        spec += f
+                spec += width + (('.' + prec) if prec is not None else '') + conv
+                values.append(ast.FormattedValue(value=args[k], conversion=-1,
+                                                 format_spec=ast.JoinedStr(values=[ast.Constant(value=spec)])))
+            k += 1
+            pos = m.end()
+        if values is None:
+            continue
+        if fmt[pos:]:
+            values.append(ast.Constant(value=fmt[pos:]))
+        # merge adjacent constants
+        merged = []
+        for v in values:
+            if merged and isinstance(v, ast.Constant) and isinstance(merged[-1], ast.Constant):
+                merged[-1] = ast.Constant(value=merged[-1].value + v.value)
+            else:
+                merged.append(v)
+        js = ast.JoinedStr(values=merged)
+        n.__class__ = ast.JoinedStr
+        n.__dict__.clear()
+        n.values = merged
+        n.lineno = getattr(fn, 'lineno', 1)
+        n.col_offset = 0
+        done = True
+    return done
+
+
+def t19_split_isinstance(fn):
+    """isinstance(x, (A, B, C))  ->  isinstance(x, A) or isinstance(x, B) or isinstance(x, C)   (x a plain name/attribute)"""
+    done = False
+    for n in own_nodes(fn):
+        if isinstance(n, ast.Call) and isinstance(n.func, ast.Name) and n.func.id == 'isinstance' and len(n.args) == 2 \
+                and not n.keywords and isinstance(n.args[1], ast.Tuple) and len(n.args[1].elts) >= 2 \
+                and _pure_operand(n.args[0]):
+            subj, kinds = n.args[0], list(n.args[1].elts)
+            import copy as _copy
+            calls = [ast.Call(func=ast.Name(id='isinstance', ctx=ast.Load()), args=[_copy.deepcopy(subj), k], keywords=[])
+                     for k in kinds]
+            n.__class__ = ast.BoolOp
+            n.__dict__.clear()
+            n.op = ast.Or()
+            n.values = calls
+            n.lineno = getattr(fn, 'lineno', 1)
+            n.col_offset = 0
+            done = True
+    return done
+
+
+def t20_ternary_to_if(fn):
+    """return A if c else B  ->  if c: return A / return B;   v = A if c else B  ->  if c: v = A / else: v = B"""
+    done = False
+    for b in _blocks(fn):
+        i = 0
+        while i < len(b):
+            st = b[i]
+            if isinstance(st, ast.Return) and isinstance(st.value, ast.IfExp):
+                e = st.value
+                b[i:i + 1] = [ast.If(test=e.test, body=[ast.Return(value=e.body)], orelse=[]), ast.Return(value=e.orelse)]
+                done = True
+                i += 2
+                continue
+            if isinstance(st, ast.Assign) and len(st.targets) == 1 and isinstance(st.targets[0], ast.Name) \
+                    and isinstance(st.value, ast.IfExp):
+                e = st.value
+                import copy as _copy
+                b[i] = ast.If(test=e.test, body=[ast.Assign(targets=[_copy.deepcopy(st.targets[0])], value=e.body)],
+                              orelse=[ast.Assign(targets=[_copy.deepcopy(st.targets[0])], value=e.orelse)])
+                done = True
+            i += 1
+    return done
+
+
+def t21_keyword_to_positional(fn):
+    """f(a, name=v)  ->  f(a, v)  for calls of plain functions defined at the top of the same module, when the
+    keyword arguments given are exactly the next parameters of f in order (no *args/**kwargs at the call)"""
+    mod, _top = _module_of(fn)
+    if mod is None:
+        return False
+    sigs = {}
+    for st in mod.body:
+        if isinstance(st, ast.FunctionDef) and not st.args.vararg and not st.args.kwonlyargs and not st.args.posonlyargs:
+            sigs[st.name] = [a.arg for a in st.args.args]
+    done = False
+    for n in own_nodes(fn):
+        if isinstance(n, ast.Call) and isinstance(n.func, ast.Name) and n.func.id in sigs and n.keywords \
+                and not any(isinstance(a, ast.Starred) for a in n.args) and all(k.arg for k in n.keywords):
+            params = sigs[n.func.id]
+            k0 = len(n.args)
+            names = [k.arg for k in n.keywords]
+            if params[k0:k0 + len(names)] == names:
+                n.args = list(n.args) + [k.value for k in n.keywords]
+                n.keywords = []
+                done = True
+    return done
+
+
 KINDS = {'T17': t17_loop_to_comp, 'T16': t16_comp_to_loop, 'T14': t14_swap_compare, 'T15': t15_ternary, 'T13': t13_extract_method, 'T11': t11_extract_tail, 'T12': t12_extract_value, 'T9': t9_swap_assigns, 'T10': t10_else_pass, 'T1': t1_rename, 'T2': t2_invert, 'T3': t3_name_return, 'T4': t4_split_and, 'T6': t6_drop_else, 'T7': t7_add_else,
-         'T8': t8_extract_arg}
+         'T8': t8_extract_arg, 'T18': t18_percent_to_fstring, 'T19': t19_split_isinstance, 'T20': t20_ternary_to_if,
+         'T21': t21_keyword_to_positional}
 
 
 def variants(modname, text, kinds):
